@@ -880,7 +880,7 @@ def regular_files(ctx):
         ctx.check(not bad, f"{short(ln)}/walk-errors-dropped", [site(b, bb) for b, bb in bad] or [f.bodies[ln].loc()], "a walk error (e.g. a missing declared path) panics instead of contributing nothing")
 
 
-@rule("C15.FILTER-PAIRING", ["C15", "C13", "C16", "C06"], """each declared path keeps the extension filter of its own resource: no collection is keyed by path with a filter as value, and filters of
+@rule("C15.FILTER-PAIRING", ["C15", "C13", "C16", "C06", "C02"], """each declared path keeps the extension filter of its own resource: no collection is keyed by path with a filter as value, and filters of
       different resources are never accumulated into one collection (grouping paths under a key made of the resource's own filter is the accepted idiom)""", "K4", floor=1)
 def filter_pairing(ctx):
     f = ctx.f
@@ -1000,9 +1000,13 @@ def filter_atoms(ctx):
                 tmp_fns = {x.name for x in f.user_bodies() if x.ret == "bool" and x.argc == 1 and x.kind == "Fn" and any(any("swp" in (const_val(a) or "") for a in tt["args"]) for _, tt in x.calls())}
                 wd_fns = {ctx.r.outer_fn(x).name for x in f.user_bodies() if any(any(a[0] == "constdef" and a[1].endswith("WORK_DIR_NAME") for a in x.prov.operand_atoms(y)) for _, tt in x.calls() for y in tt["args"])
                           and f.bodies[ctx.r.outer_fn(x).name].ret == "bool" and "Path" in f.bodies[ctx.r.outer_fn(x).name].locals[1]["ty"]}
+                # zinoma's own files are *anywhere below* a work directory: the test used on event paths looks at every component of the path (the other
+                # work-dir predicate - "is this entry a work directory", last component only - is the one for pruning the directory walk)
+                wd_deep = {x for x in wd_fns if any(re.search(r"Path::(components|ancestors|iter)$", tt["callee"]["base"]) for y in [x] + sorted(f.cg.reach([x], cross_spawn=False)) if y in f.bodies
+                                                    for _, tt in f.bodies[y].calls())}
                 for (p, facts, ro) in tps:
                     a1 = has_fact(facts, "bool", False, is_call_of(lambda c: c in tmp_fns))
-                    a2 = has_fact(facts, "bool", False, is_call_of(lambda c: c in wd_fns))
+                    a2 = has_fact(facts, "bool", False, is_call_of(lambda c: c in wd_deep))
                     a3 = any(o[0] == "call" and o[1] in preds for o in ro) or has_fact(facts, "bool", True, is_call_of(lambda c: c in preds))
                     if not (a1 and a2 and a3):
                         bad.append((p, a1, a2, a3))
